@@ -21,7 +21,7 @@ CHECKS = {
     "C06": ("GLUE", MC, "API-layer verdict: programs of K abstract lines from an arbitrary start offset with arbitrary options and buffer contents give exactly the concatenation of the lines' signatures, and the same buffer when split at an arbitrary line boundary over two calls. ENC context family: ordered pairs (concrete line of 8..14 encoding classes, skeleton line with symbolic registers/numbers/options) through the whole real pipeline in one call: the first line's bytes are those it yields alone and the second decodes as written (no encoder state survives a line).", GLUE_NOTE, GLUE_TECH, "5/C06"),
     "C07": ("GLUE", MC, "Histories of H arbitrary API calls (chunk size, offset, plain/fitting/counting assembly with failing lines, other instances) on a buffer of symbolic length: every instruction write is range-checked by the stub, NOP writes by buffer comparison, anything else by CBMC's pointer checks; 20-byte reserve rule asserted.", GLUE_NOTE, GLUE_TECH, "5/C07"),
     "C08": ("GLUE+OS", MC, "Managed-buffer growth with the growth quantum scaled down: successive calls from arbitrary offsets in all three modes, mremap moving or not; offsets, per-instruction positions and counts equal a reference instance on a large caller buffer; mremap/munmap/memcpy receive live addresses and sizes; every write goes to a live mapping; the byte at one nondeterministic offset (standing for every offset) is tracked through writes, moves and copies and equals the reference; RWX protection.", OS_NOTE, GLUE_TECH + "; OS model", "5/C08"),
-    "C09": ("TOK+ENC", MC, "Memory safety and termination per unit: line filter on all byte strings <= 104, operand splitter with arbitrary operand characters, every scanner on arbitrary bounded strings placed at the start and flush against the end of the line buffer, the mnemonic lookup for every possible first character, and the encoder/emitter on well-formed skeletons, all with CBMC's pointer/bounds/overflow/shift checks and unwinding assertions.", TOK_NOTE, "CBMC bounded symbolic execution of each text-layer unit on arbitrary bounded strings with all memory-safety checks, SAT (CaDiCaL)", "5/C09"),
+    "C09": ("TOK+ENC", MC, "Memory safety and termination per unit: line filter on all byte strings up to 40 bytes (120 in the thorough tier) and on a 90-character fixed prefix followed by 16 arbitrary bytes (crossing the end of the line buffer), operand count 1..7, every scanner on arbitrary strings of every length up to 10 placed at the start and flush against the end of the line buffer, the mnemonic lookup for every possible first character, the composed operand splitter with arbitrary operand characters (thorough tier only), and the encoder/emitter on well-formed skeletons, all with CBMC's pointer/bounds/overflow/shift checks and unwinding assertions.", TOK_NOTE, "CBMC bounded symbolic execution of each text-layer unit on arbitrary bounded strings with all memory-safety checks, SAT (CaDiCaL)", "5/C09"),
     "C10": ("ENC+TOK+GLUE", MC, "Rejection: malformed skeletons through the whole pipeline must return EXIT_FAILURE and leave the buffer unchanged; every operand-kind string per mnemonic at the lookup level against nasm's verdicts; str_to_reg on every string <= 5 chars; non-printable bytes; failing line at any position in every mode.", ENC_NOTE + " " + TOK_NOTE, ENC_TECH, "5/C10"),
     "C11": ("ENC", MC, "mov r64, imm per spelling: which of the three encodings each mode selects, for every value; SIB swap / no-base shapes encoded as documented per option; non-interference: representative lines assembled on two instances under two arbitrary option combinations give identical bytes.", ENC_NOTE, ENC_TECH, "5/C11"),
     "C12": ("GLUE", MC, "One-step query from every documented option state x five setters x every 32-bit option value against the documented transition function, frame on a second instance, plus direct sequences; induction over the state gives sequences of any length.", "Oracle spec_next written from the documentation; option bits compared through the masks of /repo/src/common.h.", "CBMC bounded symbolic execution of the real setters, SAT", "5/C12"),
@@ -30,7 +30,7 @@ CHECKS = {
     "C15": ("GLUE", MC, "Instance A after an arbitrary history of H calls vs. a fresh instance B with the same options, chunk setting and offset: same return value, final offset and bytes for the final call; failed calls leave earlier bytes intact.", GLUE_NOTE, GLUE_TECH, "5/C15"),
     "C16": ("TOK+ENC", MC, "Relational queries: two spellings of a line (case flips, inserted blanks, trailing comment / CRLF, label/section/global lines) hand the same string to the tokenizer; the same symbolic value in hexadecimal, decimal and with leading zeros gives identical bytes on two instances.", TOK_NOTE + " " + ENC_NOTE, "CBMC relational queries on the real filter/str_to_instr and on the whole pipeline, SAT", "5/C16"),
     "C17": ("GLUE+OS", MC, "Fault schedule symbolic: each kind of OS call may fail at its 1st..4th occurrence, all kinds independently, in four scenarios (managed create/grow/destroy, caller buffer, file assembly, binary output): no CBMC memory-safety failure, documented return values, live mapping still reported, instance destroyable.", OS_NOTE, GLUE_TECH + "; OS model with symbolic fault schedule", "5/C17"),
-    "C18": ("SHARED", "other", "Reduced scope: the schedule quantifier is NOT explored (no installed tool can: CBMC aborts on pthread harnesses over this code). Decided sequentially by CBMC: the index build is deterministic, idempotent, stores each entry once (S2, S3); every lookup gives the same answer whether its index entry is 0 or built (S4). Audited on the LLVM IR: the only mutable static objects are the two index arrays, all accesses to them are atomic, no non-re-entrant libc call (S1, S5). Race freedom follows by an argument on C11 atomics, which is not a solver verdict.", "The final implication (S1-S5 => per-thread results equal single-threaded ones) is argued, not decided; races inside libc are not covered.", "CBMC sequential queries on the shared lookup state + LLVM IR audit (schedules not explored)", "5/C18"),
+    "C18": ("SHARED", "other", "Reduced scope: general schedules are NOT explored (CBMC aborts on pthread harnesses over this code). Decided by CBMC with interrupt instrumentation (goto-instrument --isr): at every access to the two index arrays during a build, a reader in another thread may load an entry and sees only its initial or its final value (one preempting reader, access granularity; c18.observe, replayed with two native threads). Decided sequentially by CBMC: the index build is deterministic, idempotent, stores each entry once (S2, S3); every lookup gives the same answer whether its index entry is 0 or built (S4). Audited on the LLVM IR: the only mutable static objects are the two index arrays, all accesses to them are atomic, no non-re-entrant libc call (S1, S5). Race freedom follows by an argument on C11 atomics, which is not a solver verdict.", "The final implication (S1-S5 => per-thread results equal single-threaded ones) is argued, not decided; races inside libc are not covered.", "CBMC queries on the shared lookup state: one-preempting-reader interleavings via goto-instrument --isr, sequential determinism/idempotence/lookup-robustness queries, LLVM IR audit of mutable statics and atomic accesses", "5/C18"),
     "C20": ("CLI", "other", "Reduced scope: the real tools/asmline.c with the asm_* API replaced by a recording model and getopt_long by a contract stub: for every sequence of up to N options and FILE/stdin source, option calls, entry-point selection, -c/-b/-P/-o handling, printed count and exit status are as documented. -r, getopt's string matching and byte-level output equality are outside (the latter is C19/C06 on the library side).", "Recording model of the library API; contract stubs for getopt_long/getline/printf/exit/atoi/strchr/snprintf.", "CBMC bounded symbolic execution of tools/asmline.c with recording API model and getopt contract stub", "5/C20"),
     "C19": ("GLUE+OS", MC, "File model with symbolic size 0..3 model pages and arbitrary contents: the text handed to the in-memory entry point is the file's contents, NUL-terminated inside the mapping; results passed through; missing file fails; binary output writes exactly [0, offset).", OS_NOTE, GLUE_TECH + "; OS model", "5/C19"),
 }
